@@ -337,3 +337,43 @@ def fit_function():
     for bad in ("std::", "this->", "unique_ptr", "allocate<", ".size()", ".begin()", ".data()"):
         if bad in body: raise ExtractionError("fit(): unhandled C++ construct '%s' left after the rewrite rules" % bad)
     return Extracted("fit", FIT_HEADER, body, r, FIT_H, X.find_loops(body))
+
+# ---------------------------------------------------------------------------
+# splinetable::permuteDimensions (permute.h): whole-function extraction for exact execution (C15)
+PERMUTE_H = "include/photospline/detail/permute.h"
+PERMUTE_PRELUDE = r'''
+#include <stdint.h>
+#include <stddef.h>
+#include <stdbool.h>
+typedef double* double_ptr;
+uint32_t ndim; uint32_t* order; double** knots; uint64_t* nknots; double** extents; double* periods; uint64_t* naxes; uint64_t* strides; float* coefficients;
+int vp_thrown;
+void* vp_new(size_t elsize, size_t n);
+void  vp_copy(const void* first, const void* last, void* out);
+/* std::partial_sum(a.rbegin(), a.rend()-1, out, std::multiplies<uint64_t>()) on an array a of n elements */
+void  vp_partial_product_reverse(const uint64_t* a, size_t n, uint64_t* out);
+void  vp_reverse_u64(uint64_t* first, uint64_t* last);
+'''
+
+def permute_function():
+    s = src(PERMUTE_H)
+    start, header, body, end = X.find_function(s, r"splinetable<Alloc>::permuteDimensions\s*\(")
+    r = X.Rules(); r.counts["R1_member"] = 1
+    body = X.strip_comments(body)
+    body = r.sub("R7_throw", r"throw\s+std::runtime_error\(.*?\);", "{ vp_thrown = 1; return; }", body, must_fire=True, flags=re.S)
+    body = r.sub("R20_vector_bool", r"std::vector<bool>\s+permutation_test\(permutation\.size\(\),\s*false\);",
+                 "bool permutation_test[permutation_size + 1]; for (size_t vp_i = 0; vp_i < permutation_size; vp_i++) permutation_test[vp_i] = false;", body, must_fire=True)
+    body = r.sub("R20_vector_u64", r"std::vector<uint64_t>\s+t_naxes\(ndim\);", "uint64_t t_naxes[ndim + 1];", body, must_fire=True)
+    body = r.sub("R18_size", r"\bpermutation(?:_test)?\.size\(\)", "permutation_size", body, must_fire=True)
+    body = r.sub("R15_unique_ptr_deleter", r"std::unique_ptr<double\*\[\],void\(\*\)\(double\*\*\)>\s+t_extents\(new double\*\[ndim\],.*?\}\);", "double** t_extents = (double**)vp_new(sizeof(double*), ndim);", body, must_fire=True, flags=re.S)
+    body = r.sub("R15_unique_ptr_array", r"std::unique_ptr<([\w \*]+?)\[\]>\s+(\w+)\(new \1\[(.*?)\]\);", r"\1* \2 = (\1*)vp_new(sizeof(\1), \3);", body, must_fire=True)
+    body = r.sub("R15_new_array", r"=\s*new double\[(.*?)\];", r"= (double*)vp_new(sizeof(double), \1);", body, must_fire=True)
+    body = r.sub("R16_partial_sum", r"std::partial_sum\(t_naxes\.rbegin\(\),\s*t_naxes\.rend\(\)-1,\s*t_strides\.get\(\)\+1,\s*std::multiplies<uint64_t>\(\)\);", "vp_partial_product_reverse(t_naxes, ndim, t_strides + 1);", body, must_fire=True)
+    body = r.sub("R16_reverse", r"std::reverse\(", "vp_reverse_u64(", body, must_fire=True)
+    body = r.sub("R18_begin_end", r"t_naxes\.begin\(\),\s*t_naxes\.end\(\)", "t_naxes, t_naxes + ndim", body, must_fire=True)
+    body = r.sub("R15_get", r"\.get\(\)", "", body, must_fire=True)
+    body = r.sub("R16_copy", r"std::copy\(", "vp_copy(", body, must_fire=True)
+    for bad in ("std::", "unique_ptr", ".size()", ".begin()", " new "):
+        if bad in body: raise ExtractionError("permuteDimensions(): unhandled C++ construct '%s' left after the rewrite rules" % bad)
+    hdr = "void permuteDimensions(const size_t* permutation, size_t permutation_size)"
+    return Extracted("permuteDimensions", hdr, body, r, PERMUTE_H, X.find_loops(body))
